@@ -255,22 +255,30 @@ def char_damage_case(rec, pvl, reader, key, tier, holder, base_text=None):
             edits.append((op, pos))
         rec.case((reader, key, "char", rep), t != base_text)
         rec.count("char_damage_cases")
-        parser = traced_parser(pvl, reader, holder)
-        try:
-            st, res = load(pvl, reader, t, parser=parser)
-        except Spin as e:
-            st, res = "Spin", e
         wit = {"reader": reader, "seed": key, "damage": edits, "text": t}
-        if st == "ok":
-            rec.count("char_damage_returned")
-            tr = holder.get("trace")
-            for kind, detail in trace_laws(tr, res):
-                rec.violation(CHECK, reader, kind, {"family": family, "ref": "char-level"},
-                              wit, detail)
-        elif st not in ("LexerError", "ParseError", "timeout"):
-            rec.violation(CHECK, reader, "ill-formed-text-raises-undocumented-type",
-                          {"family": family, "ref": "char-level", "lib": st}, wit,
-                          f"{st}: {res}"[:200])
+        judge_by_laws(rec, pvl, reader, t, wit, holder, "char-level")
+
+
+def judge_by_laws(rec, pvl, reader, t, wit, holder, ref):
+    """No reference verdict for *t*: a load that returns must satisfy the
+    trace laws, a load that raises must raise a documented type."""
+    family = "omni" if reader in OMNI else "strict"
+    parser = traced_parser(pvl, reader, holder)
+    try:
+        st, res = load(pvl, reader, t, parser=parser)
+    except Spin as e:
+        st, res = "Spin", e
+    if st == "ok":
+        rec.count("char_damage_returned" if ref == "char-level" else
+                  "law_judged_returns[" + ref + "]")
+        tr = holder.get("trace")
+        for kind, detail in trace_laws(tr, res):
+            rec.violation(CHECK, reader, kind, {"family": family, "ref": ref},
+                          wit, detail)
+    elif st not in ("LexerError", "ParseError", "timeout"):
+        rec.violation(CHECK, reader, "ill-formed-text-raises-undocumented-type",
+                      {"family": family, "ref": ref, "lib": st}, wit,
+                      f"{st}: {res}"[:200])
 
 
 def corpus_texts(pvl):
@@ -303,6 +311,9 @@ def shard(i, n, tier, seed, rec, hb):
         for reader in ("default", "PVL", "PDS3"):
             char_damage_case(rec, pvl, reader, f"C05-corpus-{seed}-{name}-{reader}",
                              tier, holder, base_text=text)
+    # coverage-guided mutation of the corpus, judged by the same trace laws
+    from .c06 import fuzz_stage
+    fuzz_stage(i, n, tier, seed, rec, hb, prop="C05")
 
 
 def finish_kwargs(rec, tier):
